@@ -151,6 +151,7 @@ def parse_template(path):
                         if not m:
                             raise ValueError("%s:%d bad desugarfor" % (path, i + 1))
                         b.desugarfors.append((int(m.group(1)), m.group(2), bool(m.group(3))))
+                        mode = None
                     elif s2.startswith("//@bindclosure"):
                         m = re.match(r'//@bindclosure\s+nth=(\d+)\s+name=(\w+)', s2)
                         if not m:
